@@ -18,6 +18,7 @@ import (
 
 	"github.com/prometheus/prometheus/promql/parser"
 
+	"github.com/thanos-community/promql-engine/execution/aggregate"
 	"github.com/thanos-community/promql-engine/execution/binary"
 	"github.com/thanos-community/promql-engine/execution/model"
 	"github.com/thanos-community/promql-engine/execution/scan"
@@ -151,6 +152,117 @@ func tableKernel(c *Case, lean *LeanDriver) Verdict {
 	return v
 }
 
+var accOps = map[string]parser.ItemType{
+	"sum": parser.SUM, "max": parser.MAX, "min": parser.MIN, "count": parser.COUNT, "avg": parser.AVG,
+	"group": parser.GROUP, "stddev": parser.STDDEV, "stdvar": parser.STDVAR, "quantile": parser.QUANTILE,
+}
+
+// accKernel drives one real accumulator through Reset/Add/HasValue/Value over several steps - as
+// the table of a batch position does across batches - and compares every step's output with the
+// Lean model of the reused accumulator and with the per-step reduction.
+func accKernel(c *Case, lean *LeanDriver) Verdict {
+	v := Verdict{ID: c.ID, Query: c.Query, Oracle: "kernel", Native: true}
+	ac := c.KAcc
+	if ac == nil {
+		v.Skipped = "no accumulator case"
+		return v
+	}
+	acc, err := aggregate.VerifNewAccumulator(accOps[ac.Op])
+	if err != nil {
+		v.Other = "accumulator: " + err.Error()
+		return v
+	}
+	var real, steps []string
+	for _, st := range ac.Steps {
+		acc.Reset(float64(st.Arg))
+		vs := make([]string, len(st.Vals))
+		for i, x := range st.Vals {
+			acc.Add(float64(x))
+			vs[i] = bits(float64(x))
+		}
+		if acc.HasValue() {
+			real = append(real, kbits(acc.Value()))
+			v.NonTriv = true
+		} else {
+			real = append(real, "-")
+		}
+		steps = append(steps, bits(float64(st.Arg))+"/"+strings.Join(vs, ","))
+	}
+	ans, aerr := lean.Ask([]string{"case " + c.ID, "kernel acc " + encS(ac.Op) + " " + strings.Join(steps, "#"), "end"})
+	if aerr != nil {
+		v.Crash = "lean: " + aerr.Error()
+		return v
+	}
+	var accS, freshS string
+	for _, f := range strings.Fields(ans["kernel"]) {
+		if strings.HasPrefix(f, "acc=") {
+			accS = f[4:]
+		}
+		if strings.HasPrefix(f, "fresh=") {
+			freshS = f[6:]
+		}
+	}
+	got := strings.Join(real, "#")
+	if !accSame(got, accS) {
+		v.EngVsModel = "accumulator vs reused-accumulator model: " + got + " vs " + accS
+	}
+	if !accSame(accS, freshS) {
+		v.ModelVsSpec = "reused-accumulator model vs per-step reduction: " + accS + " vs " + freshS
+	}
+	if !accSame(got, freshS) {
+		v.EngVsProm = "accumulator vs per-step reduction: " + got + " vs " + freshS
+	}
+	v.Steps = len(ac.Steps)
+	v.Features = []string{c.Query, "acc:" + ac.Op}
+	return v
+}
+
+// accSame compares two '#'-separated lists of hex doubles ("-" = no value) with the value
+// tolerance of the result comparison.
+func accSame(a, b string) bool {
+	x, y := strings.Split(a, "#"), strings.Split(b, "#")
+	if len(x) != len(y) {
+		return false
+	}
+	for i := range x {
+		if x[i] == y[i] {
+			continue
+		}
+		if x[i] == "-" || y[i] == "-" {
+			return false
+		}
+		var u, w uint64
+		fmt.Sscanf(x[i], "%x", &u)
+		fmt.Sscanf(y[i], "%x", &w)
+		if !floatEq(math.Float64frombits(u), math.Float64frombits(w)) {
+			return false
+		}
+	}
+	return true
+}
+
+func (g *Gen) accCase(c *Case) {
+	ac := &AccCase{Op: g.pick("sum", "max", "min", "count", "avg", "group", "stddev", "stdvar", "quantile")}
+	val := func() F {
+		switch {
+		case g.chance(0.06):
+			return F(math.NaN())
+		case g.chance(0.04):
+			return F(math.Inf(1 - 2*g.r.Intn(2)))
+		default:
+			return F(float64(g.r.Intn(40) - 20))
+		}
+	}
+	for s := 1 + g.r.Intn(6); s > 0; s-- {
+		st := AccStep{Arg: F(g.pickF(0, 0.5, 0.9, 1, -1, 2, math.NaN(), 0.25))}
+		for k := g.pickI(0, 0, 1, 2, 3, 5, 9); k > 0; k-- {
+			st.Vals = append(st.Vals, val())
+		}
+		ac.Steps = append(ac.Steps, st)
+	}
+	c.KAcc = ac
+}
+
 func (g *Gen) tableCase(c *Case) {
 	tc := &TableCase{Card: g.r.Intn(3), Op: g.pick("+", "-", "*", "==", "!=", ">", "<", ">=", "<="), Bool: g.chance(0.3)}
 	tc.N = 1 + g.r.Intn(5)
@@ -244,6 +356,9 @@ func refsCSV(r []int64) string {
 func kernelCase(c *Case, lean *LeanDriver) Verdict {
 	if c.Query == "kernel:table" {
 		return tableKernel(c, lean)
+	}
+	if c.Query == "kernel:acc" {
+		return accKernel(c, lean)
 	}
 	v := Verdict{ID: c.ID, Query: c.Query, Oracle: "kernel", Native: true}
 	data := c.Data()
@@ -394,11 +509,15 @@ func firstDiff(what string, refs []int64, a, b []string) string {
 // markers, and a sequence of reference times.
 func (g *Gen) kernelCase(i int) *Case {
 	c := &Case{ID: fmt.Sprintf("kernel-%d", i), Profile: "kernel"}
-	switch i % 3 {
+	switch i % 4 {
 	case 0:
 		c.Query = "kernel:selectpoint"
 	case 1:
 		c.Query = "kernel:selectpoints"
+	case 2:
+		c.Query = "kernel:acc"
+		g.accCase(c)
+		return c
 	default:
 		c.Query = "kernel:table"
 		g.tableCase(c)
